@@ -8,6 +8,8 @@ mod pat;
 mod path;
 mod stmt;
 mod ty;
+#[cfg(disjoint_impls_verif)]
+mod verif_hook;
 
 pub trait Superset: Eq {
     /// If `self` is a superset of `other`, returns substitutions that are required to convert
